@@ -419,6 +419,30 @@ def rule_closures_and_names(ctx: Ctx) -> None:
             ctx.add("5-shape", f, it if not isinstance(it, ast.comprehension) else src, guarded, f"`{src.id}` (str | tuple) is iterated only under an isinstance test" if guarded else
                     f"`{src.id}` may be a plain name (str) or a tuple of names; iterating it without an isinstance test walks the CHARACTERS of a name: every bare dims entry longer than one character is dropped from the filtered sweep", key=f"str-iteration {f.name} {src.id}")
     ctx.floor("5-shape.str-or-tuple", n, 1)
+    # (c) itertools.groupby groups CONSECUTIVE equal keys; counting combinations with it is only right on sorted input
+    ungrouped = []
+    for f in fns:
+        d_ = Defs(f)
+        for c in ast.walk(f.node):
+            if isinstance(c, ast.Call) and dotted(c.func).rsplit(".", 1)[-1] == "groupby" and not isinstance(c.func, ast.Attribute) or (isinstance(c, ast.Call) and dotted(c.func) == "itertools.groupby"):
+                src = d_.resolve(c.args[0]) if c.args else None
+                if src is not None and not any(isinstance(x, ast.Call) and dotted(x.func) == "sorted" for x in ast.walk(src)):
+                    ungrouped.append((f, c))
+    ctx.add("5-shape", ungrouped[0][0] if ungrouped else fns[0], ungrouped[0][1] if ungrouped else fns[0].node, not ungrouped, "no itertools.groupby over unsorted combinations" if not ungrouped else
+            f"`{norm(ungrouped[0][1])[:50]}` groups CONSECUTIVE equal keys of an unsorted sequence: equal root-argument tuples that are not adjacent in enumeration order are counted as separate runs, "
+            "the later run overwrites the earlier one (counts too small; caching is then switched off for functions that ARE re-executed)", key="groupby-sorted")
+    # (d) "no items -> nothing" is decided first, whatever dims says: a Sweep({}, dims=[...]) (what filtered_sweep leaves of a sweep that
+    # enumerates nothing) must list as [] and have length 0 like any other empty sweep
+    sw = P.cls("pipefunc.sweep.Sweep")
+    for mname in ("generate", "__len__"):
+        m = sw.methods[mname]
+        cfg_ = ctx.cfg(m)
+        guards_ = cfg_.nodes(lambda s_: isinstance(s_, ast.If) and norm(s_.test) in ("not self.items", "len(self.items) == 0", "not len(self.items)"))
+        others = cfg_.nodes(lambda s_: isinstance(s_, (ast.If, ast.For)) and norm(getattr(s_, "test", getattr(s_, "iter", None))) not in ("not self.items",) and ("self.dims" in norm(getattr(s_, "test", getattr(s_, "iter", None)))))
+        first = bool(guards_) and all(any(cfg_.dominates(g_, o_) for g_ in guards_) for o_ in others)
+        ctx.tri("3-len-mirror", m, cfg_.stmt[guards_[0]] if guards_ else m.node, first, bool(guards_) and bool(others) and not first, f"Sweep.{mname}: an empty `items` is handled before `dims` is looked at",
+                f"Sweep.{mname} looks at `dims` before it has handled empty `items`: a sweep without items but with dims (left over by filtered_sweep when nothing is enumerated) raises KeyError from list() / len() instead of being empty",
+                "empty-items guard not recognised", key=f"empty-first {mname}")
 
 
 def check(ctx: Ctx) -> None:
